@@ -12,7 +12,7 @@ if '--tier' in args:
     args = [a for a in args if a not in ('--tier', tier)]
 d = os.path.join(ROOT, 'seeded', sid)
 meta = json.load(open(os.path.join(d, 'meta.json')))
-checks = args or [meta['property']]
+checks = args or meta.get('checks') or [meta['property']]
 patch = os.path.join(d, 'patch.diff')
 assert subprocess.run(['git', '-C', '/repo', 'status', '--porcelain', '--untracked-files=no'], stdout=subprocess.PIPE, text=True).stdout.strip() == '', '/repo has uncommitted changes'
 subprocess.run(['git', '-C', '/repo', 'apply', patch], check=True)
